@@ -175,6 +175,15 @@ func auditCache(c *Cache[int, int], a *wrAudit) {
 		a.Max = int64(p.maximum)
 	}
 	if ci.withExpiration {
+		if root := ci.expirationPolicy.DueForVerif(); root != nil { // timers that were due when they were scheduled
+			guard := 0
+			for n := root.NextExp(); !node.Equals(n, root) && n != nil; n = n.NextExp() {
+				get(n).InWheel++
+				if guard++; guard > 100000 {
+					break
+				}
+			}
+		}
 		for _, level := range ci.expirationPolicy.WheelForVerif() {
 			for _, root := range level {
 				guard := 0
